@@ -1,5 +1,6 @@
 """C13 — encoding layers are bijective on valid data, total and strict on arbitrary bytes."""
 import hashlib
+import os
 import sys
 
 from hypothesis import strategies as st
@@ -847,6 +848,22 @@ class KdfSpy:
              ("Crypto.IO.PEM", "_EVP_BytesToKey"), ("Crypto.IO.PEM", "PBKDF1"), ("Crypto.IO._PBES", "PBKDF1"), ("Crypto.IO._PBES", "PBKDF2"),
              ("Crypto.IO._PBES", "scrypt"), ("Crypto.PublicKey._openssh", "_bcrypt_hash"), ("Crypto.PublicKey._openssh", "bcrypt")]
 
+    def __init__(self, cap=False):
+        # cap=True (fuzz campaigns with a passphrase): refuse, with the layer's own documented ValueError, cost parameters that
+        # would make one execution take minutes; the parsers in front of the KDF are what the campaign is after
+        self.cap = cap
+
+    def _capped(self, name, a, k):
+        if name in ("PBKDF1", "PBKDF2"):
+            cnt = a[3] if len(a) > 3 else k.get("count", 1000)
+            return not isinstance(cnt, int) or cnt > 2000
+        if name == "scrypt":
+            N, r, p_ = (list(a[3:6]) + [None] * 3)[:3]
+            return not all(isinstance(x, int) for x in (N, r, p_)) or N > 1024 or r > 8 or p_ > 2
+        if name in ("_bcrypt_hash", "bcrypt"):
+            return len(self.calls) > 40
+        return False
+
     def __enter__(self):
         import importlib
         self.calls = []
@@ -864,6 +881,8 @@ class KdfSpy:
             def mk(orig, name):
                 def w(*a, **k):
                     self.calls.append(name)
+                    if self.cap and self._capped(name, a, k):
+                        raise ValueError("harness cap on KDF cost in fuzz mode")
                     return orig(*a, **k)
                 return w
             setattr(m, name, mk(orig, name))
@@ -933,8 +952,19 @@ def run_arbitrary(case, rec):
         except UnicodeDecodeError:
             raise Skip()
         f = lambda: RFC1751.english_to_key(s)
-    with KdfSpy() as spy:
-        nev, (kind, r) = count_events(f)
+    fuzzing = bool(os.environ.get("PCDVERIF_FUZZCHILD"))
+    with KdfSpy(cap=bool(case.get("cap"))) as spy:
+        if fuzzing:
+            # call events would be inflated by the coverage instrumentation: the work budget is judged by the un-instrumented checks
+            nev = 0
+            try:
+                kind, r = "ok", f()
+            except RecursionError:
+                raise
+            except Exception as e:
+                kind, r = "exc", e
+        else:
+            nev, (kind, r) = count_events(f)
     if kind == "exc" and not isinstance(r, allowed):
         from ..core import where
         raise Violation("arbitrary/%s/undocumented-exception/%s@%s" % (t, type(r).__name__, where(r)),
@@ -985,6 +1015,73 @@ def run_nokdf(case, rec):
     rec.sample({"kind": case["kind"], "format": fmt, "protection": kw.get("protection"), "events": nev})
 
 
+# ------------------------------------------------------------------ J. coverage-guided campaign (atheris / libFuzzer)
+FUZZ_IMPORTS = ["Crypto.Util.asn1", "Crypto.Util.Padding", "Crypto.Util.RFC1751", "Crypto.Util.number", "Crypto.IO.PEM", "Crypto.IO.PKCS8", "Crypto.IO._PBES",
+                "Crypto.PublicKey", "Crypto.PublicKey._openssh", "Crypto.PublicKey.RSA", "Crypto.PublicKey.DSA", "Crypto.PublicKey.ECC"]
+DER_CLASSES = ["DerObject", "DerInteger", "DerOctetString", "DerBitString", "DerNull", "DerObjectId", "DerBoolean", "DerSequence", "DerSetOf"]
+FUZZ_ARB = ["RSA", "DSA", "ECC", "PEM", "PKCS8", "unpad", "english", "openssh"]
+FUZZ_STYLES = ["pkcs7", "x923", "iso7816"]
+
+
+def fuzz_sel(kind, name):
+    """Selector byte for a target (used by the corpus builder; inverse of fuzz_decode)."""
+    if kind == "der":
+        return 2 * DER_CLASSES.index(name)
+    return 2 * FUZZ_ARB.index(name) + 1
+
+
+def fuzz_decode(data):
+    """byte 0: target, byte 1: flags (strict / as_str / passphrase / padding style / block size), rest: the decoder's input."""
+    if len(data) < 2:
+        return None
+    sel, flags, body = data[0], data[1], data[2:]
+    if sel % 2 == 0:
+        return {"kind": "der", "data": body, "cls": DER_CLASSES[(sel // 2) % len(DER_CLASSES)], "strict": bool(flags & 1), "how": "fuzz"}
+    return {"kind": "arb", "target": FUZZ_ARB[(sel // 2) % len(FUZZ_ARB)], "data": body, "pw": b"pw" if flags & 2 else None, "as_str": bool(flags & 1),
+            "style": FUZZ_STYLES[(flags >> 2) % 3], "bs": 1 + (flags >> 4) * 2 + (flags & 1), "cap": True}
+
+
+def fuzz_corpus():
+    """A few small valid inputs per target: every key kind x export format, PEM/PKCS#8 containers, DER values, padded blocks."""
+    out = []
+    from Crypto.Util import Padding, RFC1751
+    for kind in KEYKINDS:
+        fam = get_key(kind)[1]
+        for fidx in range(len(FORMATS[fam])):
+            blob, fmt, kw = export(kind, fidx)
+            if blob is None:
+                continue
+            raw = blob if isinstance(blob, bytes) else blob.encode()
+            t = "RSA" if kind.startswith("rsa") else "DSA" if kind.startswith("dsa") else "ECC"
+            flags = (2 if kw.get("passphrase") else 0) | (1 if not isinstance(blob, bytes) else 0)
+            out.append(bytes([fuzz_sel("arb", t), flags]) + raw)
+            if fmt == "PEM":
+                out.append(bytes([fuzz_sel("arb", "PEM"), flags | 1]) + raw)
+            if fmt == "DER" and kw.get("pkcs") == 8:
+                out.append(bytes([fuzz_sel("arb", "PKCS8"), flags & 2]) + raw)
+            if fmt == "OpenSSH":
+                out.append(bytes([fuzz_sel("arb", "openssh"), flags]) + raw)
+    vals = [("DerInteger", der.enc_int(0)), ("DerInteger", der.enc_int(-129)), ("DerInteger", der.enc_int(2 ** 64)), ("DerOctetString", der.enc_octets(b"abc")),
+            ("DerNull", der.enc_null()), ("DerObjectId", der.enc_oid("1.2.840.113549.1.1.1")), ("DerBoolean", der.enc_bool(True)),
+            ("DerBitString", der.enc_bitstring(b"\x01\x02", 0)), ("DerSequence", der.enc_seq([der.enc_int(1), der.enc_octets(b"")])),
+            ("DerSetOf", der.enc_setof([der.enc_int(1), der.enc_int(2)])), ("DerOctetString", der.enc_octets(bytes(130)))]
+    for cls, e in vals:
+        for strict in (0, 1):
+            out.append(bytes([fuzz_sel("der", cls), strict]) + e)
+            out.append(bytes([fuzz_sel("der", "DerObject"), strict]) + e)
+    for si, style in enumerate(FUZZ_STYLES):
+        out.append(bytes([fuzz_sel("arb", "unpad"), (si << 2) | (3 << 4) | 1]) + bytes(Padding.pad(b"abc", 8, style)))
+    out.append(bytes([fuzz_sel("arb", "english"), 1]) + RFC1751.key_to_english(bytes(range(8))).encode())
+    return out
+
+
+def run_fuzz(case, rec):
+    if case["kind"] == "der":
+        run_der_total(case, rec)
+    else:
+        run_arbitrary(case, rec)
+
+
 CHECKS = [
     Check("der_roundtrip", run=run_der_rt, strategy=strat_der_rt, examples=(12000, 300000), shards=(8, 16),
           rule="Der* encode == independent canonical writer; strict reader accepts; decode(encode(v)) == v"),
@@ -1002,6 +1099,9 @@ CHECKS = [
           rule="mutated valid key files (DER structure mutations, PEM armour damage, byte edits, cross-family) to import_key: documented exceptions only, depth-0 malformations rejected"),
     Check("arbitrary", run=run_arbitrary, strategy=strat_arbitrary, examples=(30000, 600000), shards=(16, 16),
           rule="binary/text/PEM-ish/DER-ish/OpenSSH-ish input to every decoder: documented exceptions only, no KDF without passphrase, call-event budget"),
+    Check("fuzz", run=run_fuzz, decode=fuzz_decode, corpus=fuzz_corpus, examples=(320000, 8000000), shards=(8, 16), max_len=1400,
+          rule="coverage-guided bytes (atheris, library instrumented) to every Der* class and every decoder, from an empty and from a seeded corpus: "
+               "same oracles as der_total / arbitrary (KDF cost capped when a passphrase is supplied)"),
     Check("nokdf", run=run_nokdf, strategy=strat_nokdf, examples=(200, 2000), shards=(4, 8),
           rule="encrypted key files imported without passphrase: ValueError, no KDF call, bounded work; wrong passphrase refused"),
 ]
